@@ -183,6 +183,8 @@ structure Ep where
   evs        : List Ev := []            -- ghost
 deriving Repr
 
+def withCtx (e : Ep) (c : Ctx) : Ep := { e with ctx := c }
+
 /-- result of a handler: new endpoint, outputs (oldest first), and whether it returned `Err` -/
 structure R where
   ep  : Ep
@@ -247,6 +249,12 @@ def serverFlight (L : Loc) (c : Ctx) : List WRec × Ctx :=
   let (r4, c4) := emitMsg c3 dtlsHtServerHelloDone [] false
   ([r1, r2, r3, r4], c4)
 
+/-- what the server notes from an accepted ClientHello: client random, EMS offer, its own fresh
+random, the SRTP profile it selects -/
+def helloCtx (L : Loc) (c : Ctx) (random : Bytes) (ems : Bool) (profiles : List Nat) : Ctx :=
+  { c with clientRandom := some random, ems := c.ems || ems, serverRandom := some L.serverRandom,
+           srtp := match selectSrtp profiles with | some p => some p | none => c.srtp }
+
 /-- `handle_client_hello` -/
 def handleClientHello (C : Crypto) (L : Loc) (e : Ep) (body : Bytes) : R :=
   if e.isClient then ok e
@@ -257,11 +265,8 @@ def handleClientHello (C : Crypto) (L : Loc) (e : Ep) (body : Bytes) : R :=
   else match C.chDecode body with
     | none => ok e
     | some (random, ems, profiles) =>
-      let c0 := { e.ctx with clientRandom := some random, ems := e.ctx.ems || ems,
-                              serverRandom := some L.serverRandom,
-                              srtp := match selectSrtp profiles with | some p => some p | none => e.ctx.srtp }
-      let (fl, c1) := serverFlight L c0
-      ok { e with ctx := { c1 with lastFlight := some fl } } (sends fl)
+      let fc := serverFlight L (helloCtx L e.ctx random ems profiles)
+      ok (withCtx e { fc.2 with lastFlight := some fc.1 }) (sends fc.1)
 
 /-- key derivation shared by `handle_client_key_exchange` and `handle_server_hello_done` -/
 def deriveKeys (C : Crypto) (L : Loc) (c : Ctx) : Option Keys :=
@@ -285,8 +290,6 @@ def handleClientKeyExchange (C : Crypto) (L : Loc) (e : Ep) (body : Bytes) : R :
       | none => ok { e with ctx := c0 }
       | some k => ok { e with ctx := { c0 with keys := some k },
                               evs := .keys L.pub pk (c0.clientRandom.getD []) (c0.serverRandom.getD []) c0.ems c0.transcript k :: e.evs }
-
-def withCtx (e : Ep) (c : Ctx) : Ep := { e with ctx := c }
 
 /-- publishing `Connected`: state, then the two atomics, then `local_secret = None` -/
 def connect (e : Ep) (k : Keys) (verifiedOver : Bytes) : Ep :=
